@@ -31,6 +31,11 @@ SHELLS = [
     ("close-handler-loop", 'do local x <close> = setmetatable({}, {__close = function() emit("closing") while true do end end}) end emit("survived")'),
     ("close-handler-after-kill", 'pcall(function() local x <close> = setmetatable({}, {__close = function() emit("closing-after-kill") end}) while true do end end) emit("survived")'),
     ("coroutine-close-handler-after-kill", 'local co = coroutine.wrap(function() local x <close> = setmetatable({}, {__close = function() emit("closing-after-kill") local n = 0 for i = 1, 100000 do n = n + i end emit("handler-finished") end}) while true do end end) co() emit("survived")'),
+    # a coroutine that dies (by an error, by a normal return, by coroutine.close) with a pending <close> whose handler never ends
+    ("co-dies-by-error-close-handler-loop", 'local co = coroutine.create(function() local x <close> = setmetatable({}, {__close = function() while true do end end}) error("x") end) local ok, e = coroutine.resume(co) emit("survived", ok) while true do end'),
+    ("co-returns-close-handler-loop", 'local co = coroutine.wrap(function() local x <close> = setmetatable({}, {__close = function() while true do end end}) return 1 end) pcall(co) emit("survived") while true do end'),
+    ("co-closed-close-handler-loop", 'local co = coroutine.create(function() local x <close> = setmetatable({}, {__close = function() while true do end end}) coroutine.yield() end) coroutine.resume(co) local ok, e = coroutine.close(co) emit("survived", ok) while true do end'),
+    ("co-close-handler-loop-in-pcall", 'local co = coroutine.create(function() pcall(function() local x <close> = setmetatable({}, {__close = function() while true do end end}) error("y") end) end) emit("survived", coroutine.resume(co)) while true do end'),
     ("gc-handler-loop", 'setmetatable({}, {__gc = function() emit("gc") while true do end end}) collectgarbage() collectgarbage() emit("collected") while true do end'),
     ("nested-callcontext", 'while true do runtime.callcontext({kill = {cpu = 1000000000}}, function() while true do end end) emit("survived") end'),
     ("error-in-loop", 'while true do pcall(error, "x") end'),
